@@ -18,16 +18,19 @@ def reg_sis():
 
 
 def run(tier, seed):
-    rep, r = C01.run(tier, seed, prop='C02', units=('Gillespie_SIS',), fast=False)
-    rep.add_unit_results(util.run_jobs(util.jobs_for(reg_sis, tier=tier, quals={'_process_rec_SIS_', '_find_next_trans_SIS_Markov', '_process_trans_SIS_Markov'})))
+    rep, r = C01.run(tier, seed, prop='C02', units=('Gillespie_SIS',), fast=False, sis=True)
     from ..replay import sim_native
     rep.add(util.native_ob('native:fast_SIS-and-Gillespie_SIS-scripted-draws', 'EoN/simulation.py:fast_SIS / Gillespie_SIS', sim_native.c02_native,
                            'scripted random source on graphs <= 5 nodes, tmin in {0, -6, 2.5}: every waiting time of Gillespie_SIS is drawn with the total rate of the current '
                            'state (weighted and unweighted, with re-infections); fast_SIS: every transmission delay drawn with tau*w, every recovery delay with gamma*w, '
                            'events applied in time order, S+I conserved'))
-    rep.bounded_is_supplementary = False
-    rep.level = 'other'
+    rep.bounded_is_supplementary = True
+    rep.level = 'proof'
     rep.assumptions += ['fast_SIS: a delay is re-drawn from the failed attempt time while the target is still infected (memorylessness; cited) - proved per call of _find_next_trans_SIS_Markov',
                         'heapq / myQueue contracts as in C04']
-    rep.not_covered += ['the fast_SIS driver (initialisation, event loop as a whole) is decided only by the bounded native stand-in; its three handlers are under unbounded contract']
+    rep.assumptions += ['queue rule for fast_SIS: `while Q: Q.pop_and_run()` is discharged by the lemma unit event_step_SIS (one step preserves the global invariant GI_SIS: rows, pending events '
+                        'in [now, tmax), pending recovery = rec_time of an infected node, pending attempt u->v from an infected u strictly before rec_time[u], a susceptible node\'s rec_time is not in the future, '
+                        'initial infections first), glued by the verified pop_and_run contract and the event-binding obligations at every Q.add site',
+                        '_get_rate_functions_ returns tau*w_uv / gamma*w_u (verified under C01); rates >= 0']
+    rep.not_covered += ['"every infected node has its recovery pending" is not part of the proved global invariant (an existential that made the step lemma unstable); it is what the bounded stand-in observes']
     return rep, util.native_replayer
